@@ -93,7 +93,27 @@ def rule_output_checkers(ctx):
                 # None stays None: result derived from check through Option::map only
                 ro = b.orig_local(0)
                 maps = [b.calls[o.key] for o in ro if o.kind == 'call']
-                good = good and len(maps) == 1 and maps[0].qname == 'std::option::Option::map' and ctx.base_call_bbs(b.orig_operand(maps[0].args[0])) == {c.bb}
+                via_map = len(maps) == 1 and maps[0].qname == 'std::option::Option::map' and ctx.base_call_bbs(b.orig_operand(maps[0].args[0])) == {c.bb}
+                # the same mapping written as a match: Some(i) => Some(Box::new(i)), None => None
+                via_match = False
+                if not maps and ro and all(o.kind == 'aggr' for o in ro):
+                    from rules_protocol import guard_edges_on_call
+                    some_e = {n for n, g in guard_edges_on_call(b, c) if g.variants() == frozenset(['Some'])}
+                    none_e = {n for n, g in guard_edges_on_call(b, c) if g.variants() == frozenset(['None'])}
+                    via_match = bool(some_e) and bool(none_e)
+                    for o in ro:
+                        st = b.blocks[o.key[0]]['stmts'][o.key[1]]['rv']
+                        v = st['ak'].get('variant')
+                        if v == 'Some':
+                            po = b.orig_operand(F.operand(st['ops'][0]))
+                            if ctx.base_call_bbs(po) != {c.bb} or o.key[0] in b.reach([0], avoid=lambda n: n in some_e):
+                                via_match = False
+                        elif v == 'None':
+                            if o.key[0] in b.reach([0], avoid=lambda n: n in none_e):
+                                via_match = False
+                        else:
+                            via_match = False
+                good = good and (via_map or via_match)
             R.ob('C12-proxy', b.path, good, 'check_obj downcasts the stamp to the checker\'s stamp type and returns self.check(output, stamp) (None stays None)' if good
                  else 'check_obj does not delegate to check on the downcast stamp', ctx.where(b), props=P)
 
